@@ -36,7 +36,12 @@ pub fn hex_short(b: &[u8]) -> String {
     if b.len() <= 48 {
         hex(b)
     } else {
-        format!("{}..{}(len={})", hex(&b[..24]), hex(&b[b.len() - 8..]), b.len())
+        format!(
+            "{}..{}(len={})",
+            hex(&b[..24]),
+            hex(&b[b.len() - 8..]),
+            b.len()
+        )
     }
 }
 
@@ -73,7 +78,9 @@ impl Hasher64 {
         self.bytes(s.as_bytes())
     }
     pub fn u64(&mut self, x: u64) -> &mut Self {
-        self.0 = (self.0 ^ x).wrapping_mul(0x9E37_79B9_7F4A_7C15).rotate_left(31);
+        self.0 = (self.0 ^ x)
+            .wrapping_mul(0x9E37_79B9_7F4A_7C15)
+            .rotate_left(31);
         self
     }
     pub fn finish(&self) -> u64 {
@@ -123,7 +130,11 @@ impl Json {
         Json::Int(x.into())
     }
     pub fn from_counts(m: &BTreeMap<String, u64>) -> Json {
-        Json::Obj(m.iter().map(|(k, v)| (k.clone(), Json::Int(*v as i128))).collect())
+        Json::Obj(
+            m.iter()
+                .map(|(k, v)| (k.clone(), Json::Int(*v as i128)))
+                .collect(),
+        )
     }
     pub fn strs(xs: &[String]) -> Json {
         Json::Arr(xs.iter().map(|s| Json::Str(s.clone())).collect())
